@@ -178,15 +178,17 @@ func (r *runningRoutine[K, V]) remove() {
 		return
 	}
 
+	var timer *time.Timer
 	timerCb := func() {
 		verifPoint(3, r.key)
 		r.k.mtx.Lock()
-		if r.k.routines[r.key] == r && r.deferRemove != nil {
+		if r.k.routines[r.key] == r && r.deferRemove != nil && r.deferRemove == timer {
 			_ = r.deferRemove.Stop()
 			r.deferRemove = nil
 			removeNow()
 		}
 		r.k.mtx.Unlock()
 	}
-	r.deferRemove = time.AfterFunc(r.k.releaseDelay, timerCb)
+	timer = time.AfterFunc(r.k.releaseDelay, timerCb)
+	r.deferRemove = timer
 }
